@@ -5,6 +5,8 @@ CONSTANTS
   Wait = FALSE
   StopWakes = TRUE
   JoinAll = TRUE
+  Faults = FALSE
+  RunFinally = TRUE
 SPECIFICATION LiveSpec
 INVARIANT InOrderOnce
 INVARIANT Complete
